@@ -10,7 +10,7 @@ Not decided: runtime behaviour of axum/hyper/tokio under concurrency and malform
 import re
 
 from ..common import find_nodes, short, src_file, where
-from ..exprs import decode_fmt_template, format_parts, mentions, strip
+from ..exprs import expand_combinators, inline_calls, simplify, decode_fmt_template, format_parts, mentions, strip
 from ..mirlib import Expr, Program, expr_str, op_const
 
 CR = "svgbob_server::"
@@ -31,6 +31,10 @@ def run(run):
         run.missing("C20.Y1", "async body of svgbob_server::main")
         return
     mc = mainc[0]
+    # helpers main was split into (router(), listen_port() ..) are spliced back into its body
+    inl = prog.inline_single_use_helpers(mc, same_file=True, skip=r"::(hello|text_to_svgbob)(::|$)")
+    run.record("inlined_helpers", [short(x) for x in inl])
+    bodies = [p for p in prog.bodies if p.startswith(CR)]
     ex = Expr(prog, mc)
     # ---------------- Y1 routes
     routes = [(bid, t) for bid, t in prog.calls(mc) if re.search(r"Router::<S, B>::route$", Program.callee_name(t))]
@@ -63,7 +67,7 @@ def run(run):
     run.ok("C20.Y1", "no layer / fallback / body-limit / state call among %d framework calls" % nax, where(prog.bodies[mc]))
     run.floor("C20.Y1", "framework_calls", nax, 5)
     # ---------------- Y2 POST handler
-    hc = [p for p in bodies if p.startswith(CR + "text_to_svgbob::{closure#0}")]
+    hc = [p for p in bodies if p == CR + "text_to_svgbob::{closure#0}"]
     hf = CR + "text_to_svgbob"
     if len(hc) != 1 or hf not in prog.bodies:
         run.missing("C20.Y2", "text_to_svgbob")
@@ -74,7 +78,7 @@ def run(run):
         ok = len(ready) == 1
         detail = ""
         if ok:
-            v = strip(ready[0][3][0][1])
+            v = strip(simplify(expand_combinators(prog, ready[0][3][0][1])))
             alts = list(v[1]) if v[0] == "phi" else [v]
             oks = [strip(a) for a in alts if strip(a)[0] == "agg" and strip(a)[2] == "Ok"]
             errs = [strip(a) for a in alts if strip(a)[0] == "agg" and strip(a)[2] == "Err"]
@@ -129,6 +133,16 @@ def run(run):
                     consts[it["name"]] = a[0]["v"]
         hello = [it for it in v["items"] if it.get("k") == "fn" and it.get("name") == "hello"]
         ok = False
+        # `hello` may delegate to a helper without arguments that builds the text (`fn banner() -> String`)
+        for _ in range(2):
+            if hello and len(hello[0]["body"]["stmts"]) == 1:
+                e0 = hello[0]["body"]["stmts"][0].get("expr") or {}
+                if e0.get("k") == "call" and e0["func"].get("k") == "path" and not e0["args"]:
+                    tgt = [it for it in v["items"] if it.get("k") == "fn" and it.get("name") == e0["func"]["path"].split("::")[-1] and not it["sig"]["inputs"]]
+                    if len(tgt) == 1:
+                        hello = tgt
+                        continue
+            break
         if hello:
             fm = find_nodes(hello[0]["body"], lambda n: n.get("k") == "macro" and n["name"].endswith("format") and "args" in n)
             if len(fm) == 1:
